@@ -1,6 +1,7 @@
 import Sebuf.Lemmas.Order
 import Sebuf.Gen.MapRanges
 import Sebuf.Lemmas.OaParams
+import Sebuf.Lemmas.OutDir
 /-!
 # C15 — generation is a pure, order-independent function of the definitions
 
@@ -86,5 +87,45 @@ example :
     OaParams.formatOfParam (some "format = yml".toList) = "FormatYAML" ∧
     OaParams.formatOfParam (some "".toList) = "FormatYAML" ∧ OaParams.formatOfParam none = "FormatYAML" ∧
     OaParams.formatOfParam (some "format=yaml,format=json".toList) = "FormatJSON" := by decide
+
+/-! ### the global unwrap table (files generated in the same invocation)
+
+`CollectGlobalUnwrapInfo` folds every message of every file to generate into one Go map; code emission
+only ever reads it by key. The model is `OutDir.writeAll` from the empty map (a Go map assignment IS
+`OutDir.write`). Message full names are unique in a descriptor pool, so the entries are `Functional`. -/
+
+/-- every write to and read of the table is keyed by the message's FULL name (regenerated from
+`internal/httpgen/unwrap.go`), which is what makes the entries functional. -/
+theorem unwrap_table_keyed_by_full_name :
+    Gen.MapRanges.unwrapTable = [
+      ("collectFileUnwrapFields", "write", "string(msg.Desc.FullName())"),
+      ("collectUnwrapFieldsRecursive", "write", "string(msg.Desc.FullName())"),
+      ("collectRootUnwrapMessages", "read", "string(msg.Desc.FullName())"),
+      ("collectUnwrapMapFields", "read", "string(valueMsg.Desc.FullName())")] := by decide
+
+open OutDir in
+/-- **the order of the files (and of the messages in them) does not matter**: every lookup in the table
+gives the same answer for every permutation of the collected entries. -/
+theorem unwrap_table_order_free (entries entries' : List (String × String)) (h : entries'.Perm entries)
+    (hf : Functional entries) (k : String) :
+    writeAll (fun _ => none) entries' k = writeAll (fun _ => none) entries k :=
+  writeAll_perm entries' entries h hf _ k
+
+open OutDir in
+/-- **an unrelated file does not matter**: entries under other names — collected before or after — leave
+the lookup of a name as it was, so a file's output cannot change with files that define none of the
+messages it refers to. -/
+theorem unwrap_table_unrelated_file (entries extra : List (String × String)) (k : String)
+    (hx : ∀ p ∈ extra, p.1 ≠ k) :
+    writeAll (fun _ => none) (entries ++ extra) k = writeAll (fun _ => none) entries k ∧
+    writeAll (fun _ => none) (extra ++ entries) k = writeAll (fun _ => none) entries k :=
+  writeAll_append_other entries extra _ k hx
+
+/-- non-vacuity: two entries, swapped, and a third under another name. -/
+example :
+    OutDir.writeAll (fun _ => none) [("p.A", "items"), ("p.B", "rows")] "p.A" = some "items" ∧
+    OutDir.writeAll (fun _ => none) [("p.B", "rows"), ("p.A", "items")] "p.A" = some "items" ∧
+    OutDir.writeAll (fun _ => none) [("q.C", "x"), ("p.B", "rows"), ("p.A", "items")] "p.A" = some "items" := by
+  simp [OutDir.writeAll, OutDir.write]
 
 end Sebuf.C15
